@@ -147,6 +147,19 @@ pub fn wb_lengths(bits: usize, words: usize) -> Vec<usize> {
     v
 }
 
+/// Lengths well beyond the small-scope bound (4 and 8 machine words +-1, 16 words + 3): one
+/// pattern pair per length, to catch code paths that only engage on long inputs (chunked or
+/// vectorised fast paths).
+pub fn long_lengths(bits: usize) -> Vec<usize> {
+    let mut v = Vec::new();
+    for m in [4usize, 8] {
+        let b = 64 * m / bits;
+        v.extend([b - 1, b, b + 1]);
+    }
+    v.push(64 * 16 / bits + 3);
+    v
+}
+
 pub fn show<A: Codec>(v: &[A]) -> String {
     v.iter().map(|a| a.to_char()).collect()
 }
